@@ -581,3 +581,128 @@ Proof.
   split; [exact (proj1 ex_udp_bad)|].
   intros [s [[H|[H|[]]] Hp]]; inversion H; subst; vm_compute in Hp; discriminate Hp.
 Qed.
+
+(* ------------------------------------------------------------------ reflection: a side never accepts its own boxes *)
+Lemma own_not_accepted : forall client p, own_side client p = true -> accepts client p = false.
+Proof.
+  intros [] p H; unfold own_side in H; repeat rewrite orb_true_iff in H;
+    destruct H as [[[H|H]|H]|H]; apply N.eqb_eq in H; subst p; reflexivity.
+Qed.
+
+Theorem session_in_not_own : forall client sid l,
+  Forall (fun r : rseg => own_side client (mi_proto (fst r)) = false) (session_in client sid l).
+Proof.
+  intros client sid l. induction l as [|r t IH]; cbn [session_in]; [constructor|].
+  destruct (mi_sid (fst r) =? sid); [|exact IH].
+  destruct (accepts client (mi_proto (fst r))) eqn:Ha; [|constructor].
+  destruct (is_close (mi_proto (fst r))); [constructor|].
+  destruct (is_queued (mi_proto (fst r))); [|exact IH].
+  constructor; [|exact IH].
+  destruct (own_side client (mi_proto (fst r))) eqn:Eo; [|reflexivity].
+  rewrite (own_not_accepted _ _ Eo) in Ha. discriminate Ha.
+Qed.
+
+(* all datagrams a socket receives, through the parser *)
+Definition udp_recv_all (op : list N -> list N -> option (list N)) (pm : list N -> option minfo)
+           (ld : leparams -> N -> list N -> option (list N)) (ds : list (list N)) : list rseg :=
+  flat_map (fun d => match udp_parse op pm ld d with Some r => [r] | None => [] end) ds.
+
+Theorem reflection_refused : forall op pm ld client sid,
+  (forall s' : list N,
+     Forall (fun r : rseg => own_side client (mi_proto (fst r)) = false)
+            (session_in client sid (fst (feed op pm ld r_init s')))) /\
+  (forall ds : list (list N),
+     Forall (fun r : rseg => own_side client (mi_proto (fst r)) = false)
+            (session_in client sid (udp_recv_all op pm ld ds))).
+Proof. intros. split; intros; apply session_in_not_own. Qed.
+
+(* the reflection of the TCP example: the client is fed its own second segment behind its own nonce + 1 *)
+Definition ex_c1 : segment := mkSeg (mkMinfo pOpenReq 0 ex_now 77 0 0 0 0 0 0 0 0 0 0 0) [] [] [5] false.
+Definition ex_c2 : segment := mkSeg (ex_meta pDataC2S 1) [201; 202; 203] [] [6] false.
+Definition ex_csegs : list segment := [ex_c1; ex_c2].
+Definition ex_cn0 : list N := map (fun b => (b + 100) mod 256) ex_n0.
+Definition ex_cstream : list N := serialize toy_seal meta_marshal_c le_len_id le_encode_id false ex_cn0 ex_csegs.
+(* the key is shared: the client's receiver opens the boxes of both directions *)
+Definition ex_open2 := tab_open (tcp_tab ex_n0 ex_boxes ++ tcp_tab ex_cn0 (stream_boxes meta_marshal_c le_len_id ex_csegs)).
+Definition ex_reflect : list N := nonce_add 1 ex_cn0 ++ skipn (24 + 48 + 1) ex_cstream.
+Lemma ex_reflect_opens_but_refused :
+  fst (feed ex_open2 (meta_parse_c ex_now) le_decode_id r_init ex_reflect) = [ex_deliver ex_c2] /\
+  session_in true 77 (fst (feed ex_open2 (meta_parse_c ex_now) le_decode_id r_init ex_reflect)) = [] /\
+  session_in true 77 (fst (feed ex_open2 (meta_parse_c ex_now) le_decode_id r_init ex_stream)) = map ex_deliver ex_segs.
+Proof. vm_compute. repeat split; reflexivity. Qed.
+
+(* ------------------------------------------------------------------ UDP: nothing is released across a gap *)
+Lemma firstn_snoc_nth {A} : forall (l : list A) n x, nth_error l n = Some x -> firstn (S n) l = firstn n l ++ [x].
+Proof.
+  induction l as [|y l IH]; intros [|n] x H; cbn in H; try discriminate.
+  - inversion H. reflexivity.
+  - cbn [firstn app]. f_equal. apply IH, H.
+Qed.
+
+Section UdpRelease.
+  Variable sent : list (list N).     (* payload of the sequenced segment number i of the sender *)
+  Definition gen (kp : nat * list N) : Prop := nth_error sent (fst kp) = Some (snd kp).
+  Definition genuine (e : uevent) : Prop :=
+    match e with UArrive q p => nth_error sent q = Some p | UClose => True end.
+
+  Lemma buf_lookup_in : forall b q p, buf_lookup q b = Some p -> In (q, p) b.
+  Proof.
+    induction b as [|[k p'] t IH]; intros q p H; cbn [buf_lookup] in H; [discriminate|].
+    destruct (k =? q)%nat eqn:E.
+    - apply Nat.eqb_eq in E. inversion H. subst. left. reflexivity.
+    - right. apply IH, H.
+  Qed.
+
+  Lemma buf_remove_gen : forall b q, Forall gen b -> Forall gen (buf_remove q b).
+  Proof.
+    induction b as [|[k p] t IH]; intros q H; cbn [buf_remove]; [constructor|].
+    inversion H; subst. destruct (k =? q)%nat; [apply IH; assumption|constructor; [assumption|apply IH; assumption]].
+  Qed.
+
+  Lemma release_inv : forall fuel next b n' b' r, Forall gen b -> u_release fuel next b = (n', b', r) ->
+    firstn n' sent = firstn next sent ++ r /\ Forall gen b'.
+  Proof.
+    induction fuel as [|f IH]; intros next b n' b' r Hg H; cbn [u_release] in H.
+    - inversion H; subst. rewrite app_nil_r. split; [reflexivity|exact Hg].
+    - destruct (buf_lookup next b) as [p|] eqn:El.
+      + destruct (u_release f (S next) (buf_remove next b)) as [[n1 b1] r1] eqn:Er.
+        inversion H; subst. destruct (IH _ _ _ _ _ (buf_remove_gen _ next Hg) Er) as [H1 H2].
+        split; [|exact H2]. rewrite H1.
+        assert (Hp : nth_error sent next = Some p).
+        { apply buf_lookup_in in El. rewrite Forall_forall in Hg. exact (Hg _ El). }
+        rewrite (firstn_snoc_nth _ _ _ Hp), <- app_assoc. reflexivity.
+      + inversion H; subst. rewrite app_nil_r. split; [reflexivity|exact Hg].
+  Qed.
+
+  Definition u_inv (st : ust) : Prop := u_q st = firstn (u_next st) sent /\ Forall gen (u_buf st).
+
+  Lemma u_step_inv : forall st e, u_inv st -> genuine e -> u_inv (u_step st e).
+  Proof.
+    intros st e [Hq Hb] He. unfold u_step. destruct (u_closed st); [split; assumption|].
+    destruct e as [q p|]; [|split; assumption].
+    destruct (q <? u_next st)%nat; [split; assumption|].
+    destruct (u_release (S (length ((q, p) :: buf_remove q (u_buf st)))) (u_next st) ((q, p) :: buf_remove q (u_buf st)))
+      as [[n1 b1] r1] eqn:Er.
+    assert (Hg : Forall gen ((q, p) :: buf_remove q (u_buf st))).
+    { constructor; [exact He|apply buf_remove_gen, Hb]. }
+    destruct (release_inv _ _ _ _ _ _ Hg Er) as [H1 H2].
+    split; cbn [u_q u_next u_buf]; [rewrite Hq, H1; reflexivity|exact H2].
+  Qed.
+
+  (* whatever arrives in whatever order, with whatever missing, and wherever the close falls: the application's
+     queue is exactly the first u_next segments of the sender - never a segment behind a missing one *)
+  Theorem udp_no_release_across_gap : forall evs, Forall genuine evs ->
+    u_q (u_run evs) = firstn (u_next (u_run evs)) sent.
+  Proof.
+    intros evs H. unfold u_run.
+    assert (G : forall st, u_inv st -> u_inv (fold_left u_step evs st)).
+    { induction H as [|e t He _ IH]; intros st Hst; cbn [fold_left]; [exact Hst|].
+      apply IH, u_step_inv; assumption. }
+    apply G. split; [reflexivity|constructor].
+  Qed.
+End UdpRelease.
+
+(* segment 1 missing, 2 and 3 parked, the close arrives, then the retransmission of 1: only segment 0 is released *)
+Lemma ex_gap : u_q (u_run [UArrive 0 [1]; UArrive 2 [3]; UArrive 3 [4]; UClose; UArrive 1 [2]]) = [[1]]
+  /\ u_q (u_run [UArrive 0 [1]; UArrive 2 [3]; UArrive 3 [4]; UArrive 1 [2]; UClose]) = [[1]; [2]; [3]; [4]].
+Proof. vm_compute. split; reflexivity. Qed.
